@@ -380,6 +380,15 @@ func (run *Run) runBatch(name string, cases []Case) []Result {
 			run.mu.Unlock()
 		}
 	}
+	if werr != nil {
+		// keep the worker's log of an abnormal exit (crash report, hang diagnosis)
+		if lb, err := os.ReadFile(logf); err == nil {
+			if len(lb) > 4<<20 {
+				lb = lb[len(lb)-(4<<20):]
+			}
+			os.WriteFile(filepath.Join(run.OutDir, fmt.Sprintf("worker-%s-case%d.log", name, begun)), lb, 0o644)
+		}
+	}
 	if werr != nil && begun >= 0 && !ended[begun] {
 		// abnormal exit while executing case `begun`
 		lb, _ := os.ReadFile(logf)
